@@ -4,7 +4,7 @@ import json as _json
 
 def _c14_case(c):
     p = c.split(" ")
-    if p[0] in ("A", "R", "F"):
+    if p[0] in ("A", "R", "F", "T"):
         return {"kind": "A", "line": c}
     if p[0] == "M":
         # M <n> <events...>: re-run the schedule on the real Merge
